@@ -88,7 +88,7 @@ from typing import Dict, List, Optional, Set, Tuple
 
 from ..cfg import atoms, cfg_of, origins
 from ..errflow import Absorb, ExcTypes, Flow, Graph, Site, short_name
-from ..index import AnalysisError, FuncNode, call_name, const, enclosing_class, enclosing_function, kwarg, last_attr, module_of, norm, parent, walk_local
+from ..index import AnalysisError, FuncNode, call_name, calls_in, const, enclosing_class, enclosing_function, kwarg, last_attr, module_of, norm, parent, short, walk_local
 from ..report import construct_of
 
 LINTER = "src/sqlfluff/core/linter/linter.py"
@@ -288,6 +288,106 @@ def run(chk) -> None:
     _r04b(chk, w)
     _r04c(chk, w)
     _r04d(chk, w)
+    chk.rule("R04e", "every place where the templaters run the user's template code (Jinja parse / render / speculative variant trace, str.format of the python templater) sits in a handler that takes whatever that code can raise and turns it into a templating error (or, for a speculative variant, drops the variant)")
+    _r04e(chk)
+
+
+# ---------------------------------------------------------------------------
+# R04e
+# ---------------------------------------------------------------------------
+
+JINJA_T = "src/sqlfluff/core/templaters/jinja.py"
+PYTHON_T = "src/sqlfluff/core/templaters/python.py"
+# what str.format can raise for a field the context cannot satisfy or a bad conversion / spec
+FORMAT_ERRORS = {"KeyError", "IndexError", "AttributeError", "TypeError", "ValueError"}
+
+
+def _handler_names(h: ast.ExceptHandler) -> Set[str]:
+    if h.type is None:
+        return {"BaseException"}
+    ts = h.type.elts if isinstance(h.type, ast.Tuple) else [h.type]
+    return {norm(t).split(".")[-1] for t in ts}
+
+
+def _enclosing_tries(node, stop):
+    p, child = getattr(node, "_parent", None), node
+    while p is not None and p is not stop:
+        if isinstance(p, ast.Try) and child in p.body:
+            yield p
+        child, p = p, getattr(p, "_parent", None)
+
+
+def _r04e(chk) -> None:
+    """Rendering a template executes code the user wrote: `{{ 1 // 0 }}`, `{{ 10.0 ** 400 }}`, a macro
+    that indexes a missing element, a format field `{a[5]}`.  The property wants a TMP violation, so the
+    call that runs it must be covered by a handler for (at least) Exception -- a closed list of types is
+    a crash for every type not on it -- whose body raises SQLTemplaterError or, on the path that renders
+    speculative variants of unreached branches, abandons the variant."""
+    repo = chk.repo
+    sites = []  # (function, call, what, needed types, mode)
+    proc = repo.fn(JINJA_T, "JinjaTemplater.process")
+    for c in calls_in(proc):
+        la = last_attr(c)
+        if la == "slice_file" and isinstance(c.func, ast.Attribute):
+            sites.append((proc, c, "render and slice the template", {"Exception"}, "translate"))
+        if la == "parse" and isinstance(c.func, ast.Attribute) and norm(c.func.value).endswith("env"):
+            sites.append((proc, c, "parse the template", {"Exception"}, "translate"))
+    unreached = repo.fn(JINJA_T, "JinjaTemplater._handle_unreached_code")
+    for c in calls_in(unreached):
+        if last_attr(c) == "trace" and isinstance(c.func, ast.Attribute):
+            sites.append((unreached, c, "render a speculative variant", {"Exception"}, "drop"))
+    pyproc = repo.fn(PYTHON_T, "PythonTemplater.process")
+    for fn in [n for n in ast.walk(pyproc) if isinstance(n, (ast.FunctionDef, ast.Lambda))]:
+        if fn is pyproc:
+            continue
+        for c in calls_in(fn):
+            if last_attr(c) in ("format", "format_map", "vformat") and isinstance(c.func, ast.Attribute) and (c.keywords or c.args):
+                if any(k.arg is None for k in c.keywords) or last_attr(c) != "format":
+                    need = set(FORMAT_ERRORS)
+                    if last_attr(c) == "format_map":
+                        # format_map is used with a mapping that answers for missing names itself (the
+                        # ignore=templating fallback): a missing name is not an error on that path
+                        need.discard("KeyError")
+                    sites.append((fn, c, "str.format with the user's context", need, "translate"))
+    chk.count("R04e.template_code_sites", len(sites))
+    chk.floor("R04e.template_code_sites", 4)
+    for fn, c, what, need, mode in sites:
+        covered: Set[str] = set()
+        bodies = []
+        for t in _enclosing_tries(c, fn):
+            for h in t.handlers:
+                names = _handler_names(h)
+                reraise_only = len(h.body) == 1 and isinstance(h.body[0], ast.Raise) and h.body[0].exc is None
+                if reraise_only:
+                    continue  # a pass-through arm (e.g. `except SQLFluffSkipFile: raise`) converts nothing
+                covered |= names
+                bodies.append((names, h))
+        if "Exception" in covered or "BaseException" in covered:
+            missing = set()
+        else:
+            missing = need - covered if need != {"Exception"} else {"Exception"}
+        ok = not missing
+        why = f"not covered: {sorted(missing)}" if missing else ""
+        if ok:
+            # the covering handlers must convert (raise SQLTemplaterError) or, for variants, go on
+            for names, h in bodies:
+                if not (names & (need | {"Exception", "BaseException"})):
+                    continue
+                raises = [r for r in ast.walk(h) if isinstance(r, ast.Raise) and r.exc is not None]
+                converts = any(isinstance(r.exc, ast.Call) and norm(r.exc.func).split(".")[-1] == "SQLTemplaterError" for r in raises) or any(
+                    isinstance(r.exc, ast.Name) for r in raises
+                )
+                if mode == "translate" and not converts:
+                    ok, why = False, f"the handler for {sorted(names)} does not raise SQLTemplaterError"
+                if mode == "drop" and raises:
+                    ok, why = False, f"the handler for {sorted(names)} re-raises instead of abandoning the variant"
+        loc_fn = getattr(fn, "name", "<lambda>")
+        chk.require(
+            ok, "R04e", c,
+            f"{loc_fn}: `{short(c, 60)}` runs the user's template code ({what}) but {why}: an exception of another type raised by that code escapes parse/lint/fix "
+            "as a traceback instead of a TMP violation",
+            detail=f"{loc_fn}: {what} is inside a converting catch-all",
+        )
 
 
 # ---------------------------------------------------------------------------
@@ -1065,6 +1165,18 @@ LEXER = "src/sqlfluff/core/parser/lexer.py"
 DELIMITED = "src/sqlfluff/core/parser/grammar/delimited.py"
 
 VARIANTS: List[Variant] = [
+    Variant("jinja-variant-handler-narrowed", "src/sqlfluff/core/templaters/jinja.py",
+            "                except Exception:\n",
+            "                except (TemplateError, TypeError, ValueError):\n",
+            "R04e", "_handle_unreached_code", "seeded C04-2: a ZeroDivisionError in a forced, unreached branch escapes lint"),
+    Variant("jinja-render-handler-closed-list", "src/sqlfluff/core/templaters/jinja.py",
+            "        except Exception as err:\n            # Rendering runs the user's template code, which can raise anything:",
+            "        except (TypeError, ValueError) as err:\n            # Rendering runs the user's template code, which can raise anything:",
+            "R04e", "process", "the defect repaired by 40279a3: `select {{ 1 // 0 }}` raised ZeroDivisionError"),
+    Variant("python-format-handler-keyerror-only", "src/sqlfluff/core/templaters/python.py",
+            "            except (AttributeError, IndexError, TypeError, ValueError) as err:\n                # A field which the context cannot satisfy",
+            "            except (AttributeError,) as err:\n                # A field which the context cannot satisfy",
+            "R04e", "render_func", "the defect repaired by 5e0bd3a: `select {a[5]}` raised IndexError"),
     # ---- R04a: exception flow ---------------------------------------------------------------
     Variant("fix-validation-verdict-handler-narrowed", "src/sqlfluff/core/linter/fix.py",
             "            except SQLParseError as err:\n                # The edited segment no longer fits",
